@@ -43,7 +43,7 @@ json WorldT::make_plan(CheckSpec const& spec, std::uint64_t index) const
     }
     plan["config"]["max_events"] = max_event + 1 + (unsigned)rp.below(3);
     plan["ops"] = ops;
-    plan["step_budget"] = 200000;
+    plan["step_budget"] = 60000;
     return plan;
 }
 
